@@ -584,7 +584,7 @@ func (p *prefixed) Read(b []byte) (int, error) {
 
 func main() {
 	run = vx.Begin("C12", "exploration",
-		"handshake pairs with both ends observed: (a) each of the four pads enumerated over all values 0..511 by the reference side x transport chunkings x initial-payload sizes {0,1,68,65535}; (b) PRNG rain<->rain and mixed pairs over keys (right/wrong), offers {1,2,3,4,6,0x80000002,...}, responder selection behaviours (honest, prefer-plain, not-offered, zero, multi-bit), corrupt VC; (c) btconn Accept/Dial policy matrix against reference endpoints. distinct = distinct case parameter tuples judged")
+		"handshake pairs with both ends observed: (a) each of the four pads enumerated over all values 0..511 by the reference side x transport chunkings x initial-payload sizes {0,1,68,65535}; (b) PRNG rain<->rain and mixed pairs over keys (right/wrong), offers {1,2,3,4,6,0x80000002,...}, responder selection behaviours (honest, prefer-plain, not-offered, zero, multi-bit), corrupt VC; (c) btconn Accept/Dial policy matrix against reference endpoints; (d) real sessions with each consistent setting of DisableOutgoingEncryption / ForceOutgoingEncryption / ForceIncomingEncryption: first bytes of every outgoing connection recorded by raw listeners (incl. the retry and a redial), a raw client offering the plaintext handshake to the session's port. distinct = distinct case parameter tuples judged")
 	logger.Disable()
 	vx.StartCanary()
 	var cases []caseSpec
@@ -679,6 +679,13 @@ func main() {
 			run.Violation("panic:dial", fmt.Sprintf("policy dial %d: panic %s", k, pt), nil)
 		}
 	})
+	// session level: what a real Session with the Force/Disable flags puts on the wire
+	type sp struct{ dis, fo, fi bool }
+	var sps []sp
+	for i := 0; i < run.N(2, 12); i++ {
+		sps = append(sps, sp{false, true, true}, sp{false, true, false}, sp{false, false, true}, sp{false, false, false}, sp{true, false, false})
+	}
+	vx.Parallel(len(sps), 10, func(k int) { sessionPolicy(k, sps[k].dis, sps[k].fo, sps[k].fi) })
 	run.Assume("reference MSE written from the MSE/PE specification (own DH, SHA-1 key derivation, RC4-drop-1024); rain's own pads are random and not controllable from outside: their 0..511 range is exercised by repetition, the reference side's pads by enumeration")
 	run.Finish(300)
 }
